@@ -28,6 +28,7 @@ type HistOpt struct {
 	Scale      bool // occasionally produce long transactions (> 1024 rows events) and long histories (> 1024 events)
 	ScaleTx    bool // long transactions only
 	ScaleRows  bool // rows events with more than a thousand rows only
+	ManyTables int  // if > 0: one history in ManyTables has hundreds to thousands of tables (Scale implies 50)
 }
 
 // DefaultHistOpt is the C01 shape.
@@ -65,9 +66,20 @@ func Casing(t *rapid.T, word string) string {
 func StatusVars(t *rapid.T, all bool) []refenc.StatusVar {
 	var out []refenc.StatusVar
 	rb := func(n int) []byte { return rapid.SliceOfN(rapid.Byte(), n, n).Draw(t, "sv_payload") }
-	str := func(max int) []byte {
+	str := func(max, full int) []byte {
+		// mostly short; one in six at the longest value the master can write (the whole block then
+		// reaches the sizes of MAX_SIZE_LOG_EVENT_STATUS of 5.7 / 8.0, a few KB)
 		n := rapid.IntRange(0, max).Draw(t, "sv_strlen")
-		return refenc.Blob{K: 7, S: rapid.Uint32().Draw(t, "sv_s"), N: n}.Bytes()
+		if all && rapid.IntRange(0, 5).Draw(t, "sv_strfull") == 0 {
+			n = full
+		}
+		b := refenc.Blob{K: 7, S: rapid.Uint32().Draw(t, "sv_s"), N: n}.Bytes()
+		for i := range b {
+			if b[i] == 0 {
+				b[i] = 'z'
+			}
+		}
+		return b
 	}
 	for _, code := range refenc.StatusVarOrder {
 		if code == 4 {
@@ -86,7 +98,7 @@ func StatusVars(t *rapid.T, all bool) []refenc.StatusVar {
 		case 1:
 			p = rb(8)
 		case 6, 5:
-			s := str(40)
+			s := str(40, 255)
 			p = append([]byte{byte(len(s))}, s...)
 		case 3:
 			p = rb(4)
@@ -97,7 +109,7 @@ func StatusVars(t *rapid.T, all bool) []refenc.StatusVar {
 		case 10:
 			p = rb(4)
 		case 11:
-			u, h := str(20), str(20)
+			u, h := str(20, 96), str(20, 255)
 			p = append(append([]byte{byte(len(u))}, u...), append([]byte{byte(len(h))}, h...)...)
 		case 12:
 			if rapid.IntRange(0, 3).Draw(t, "sv_ndb_over") == 0 {
@@ -111,7 +123,7 @@ func StatusVars(t *rapid.T, all bool) []refenc.StatusVar {
 			}
 			p = []byte{byte(n)}
 			for i := 0; i < n; i++ {
-				p = append(append(p, str(10)...), 0)
+				p = append(append(p, str(10, 192)...), 0)
 			}
 		case 13:
 			p = rb(3)
@@ -243,7 +255,25 @@ func recase(t *rapid.T, sql string) string {
 	if i < 0 {
 		return Casing(t, sql)
 	}
-	return Casing(t, sql[:i]) + sql[i:]
+	return Casing(t, sql[:i]) + sql[i:] + sqlTail(t)
+}
+
+// sqlTail is statement text behind the first word that must come through verbatim whatever the
+// session character set says: a trailing comment with non-ASCII, non-UTF-8 and control bytes.
+func sqlTail(t *rapid.T) string {
+	if rapid.IntRange(0, 3).Draw(t, "sql_tail") != 0 {
+		return ""
+	}
+	var body string
+	switch rapid.IntRange(0, 3).Draw(t, "sql_tail_k") {
+	case 0:
+		body = rapid.SampledFrom([]string{"caf\u00e9", "\ufffd", "x\ufffdy \u00e9", "caf\xe9 latin1", "\x80\x9f", "\xff\xfe", "a\x00b", "line\nbreak\ttab", "'q' \"dq\" \\", "\U0001F600", "\xc3\x28"}).Draw(t, "sql_tail_s")
+	case 1:
+		body = string(rapid.SliceOfN(rapid.Byte(), 0, 24).Draw(t, "sql_tail_b"))
+	default:
+		body = string(refenc.Blob{K: rapid.IntRange(3, 7).Draw(t, "sql_tail_bk"), S: rapid.Uint32().Draw(t, "sql_tail_bs"), N: rapid.IntRange(0, 300).Draw(t, "sql_tail_n")}.Bytes())
+	}
+	return " /* " + body + " */"
 }
 
 func rowsItem(t *rapid.T, tables []hist.Table, ck *clock, o HistOpt) hist.Item {
@@ -357,10 +387,16 @@ func Config(t *rapid.T) hist.Cfg {
 	}
 	if c.RowsV2 {
 		c.ExtraLen = boundaryOr(t, "extra_len", 0, 40, 0, 1, 2)
+		if rapid.IntRange(0, 2).Draw(t, "extra_typed") == 0 {
+			c.ExtraKind = rapid.IntRange(1, 3).Draw(t, "extra_kind")
+		}
 	}
 	c.ServerID = rapid.SampledFrom([]uint32{1, 2, 1<<31 - 1, 1 << 31, 1<<32 - 1, 12345}).Draw(t, "master_id")
 	c.CreateTS = rapid.Uint32Range(1, 1<<31).Draw(t, "create_ts")
 	c.PadBits = rapid.IntRange(0, 2).Draw(t, "pad_bits")
+	if rapid.Bool().Draw(t, "hdr_flags") {
+		c.HdrFlags = rapid.Uint32Range(1, 1<<32-1).Draw(t, "hdr_flags_seed")
+	}
 	c.OptMeta = rapid.IntRange(0, 2).Draw(t, "opt_meta") == 0
 	return c
 }
@@ -571,10 +607,14 @@ func History(t *rapid.T, o HistOpt) *hist.History {
 			h.Units = append(rep, tail...)
 		}
 	}
-	if o.Scale && rapid.IntRange(0, 49).Draw(t, "many_tables") == 0 {
+	manyOdds := o.ManyTables
+	if manyOdds == 0 && o.Scale {
+		manyOdds = 50
+	}
+	if manyOdds > 0 && rapid.IntRange(0, manyOdds-1).Draw(t, "many_tables") == 0 {
 		// hundreds of tables on one stream, statements that touch two of them: whatever the replica
 		// keeps per table id must survive that
-		nt := rapid.SampledFrom([]int{130, 260, 300, 520}).Draw(t, "many_tables_n")
+		nt := rapid.SampledFrom([]int{130, 300, 520, 700, 1100, 2100}).Draw(t, "many_tables_n")
 		base := len(h.Tables)
 		for i := 0; i < nt; i++ {
 			h.Tables = append(h.Tables, hist.Table{DB: "many", Name: fmt.Sprintf("t%d", i), ID: uint64(100000 + i),
